@@ -16,7 +16,6 @@ package main
 // from the node h links down the path reaches the sending socket.
 
 import (
-	"bytes"
 	"context"
 	"fmt"
 	"strings"
@@ -282,20 +281,22 @@ func runScenario(c *Ctx, im *Impl, cf *CaseFile, s *scenario) {
 
 // sendCase: one datagram.  Returns false when the injected tables were found replaced.
 func sendCase(c *Ctx, im *Impl, cf *CaseFile, w *world, s *scenario, src, dst, fsvc, tsvc string, h, d int) bool {
-	w.checkPending(cf, im)
 	if w.injected != nil {
 		w.reinject()
 	}
-	w.reset()
-	// the payload starts with the probe's number: a packet of an earlier probe that is still
-	// travelling is recognised
-	w.probeNo++
-	payload := append([]byte{byte(w.probeNo >> 24), byte(w.probeNo >> 16), byte(w.probeNo >> 8), byte(w.probeNo)}, c.Rng.Bytes(c.Rng.Intn(20))...)
+	viaSocket := fsvc == "src" // the anchored path: PacketConn.SetHopsToLive + WriteTo on socket src<probe mod 4>
+	if viaSocket {
+		fsvc = srcName(w.probeNo + 1)
+	}
+	no := w.begin(true, src, fsvc, dst, tsvc, viaSocket)
+	// the payload starts with the probe's number: whatever of an earlier probe is still travelling is
+	// recognised by the observers and kept out of this record
+	payload := append([]byte{byte(no >> 24), byte(no >> 16), byte(no >> 8), byte(no)}, c.Rng.Bytes(c.Rng.Intn(20))...)
 	desc := w.desc(nil)
 	n := w.mesh.Nodes[src]
 	var err error
-	if fsvc == "src" { // the anchored path: PacketConn.SetHopsToLive + WriteTo
-		pc := w.socks[src]
+	if viaSocket {
+		pc := w.socks[src][no%nSrc]
 		pc.SetHopsToLive(byte(h))
 		if got := pc.GetHopsToLive(); got != byte(h) {
 			im.Violate(fmt.Sprintf("SetHopsToLive(%d) then GetHopsToLive() = %d", h, got), "hop-setter", nil)
@@ -304,7 +305,7 @@ func sendCase(c *Ctx, im *Impl, cf *CaseFile, w *world, s *scenario, src, dst, f
 	} else {
 		err = n.SendMessageWithHopsToLive(fsvc, dst, tsvc, payload, byte(h))
 	}
-	w.awaitEnd(src, fsvc, err != nil)
+	w.awaitEnd(src, viaSocket, err != nil)
 	// On converged tables the property itself says what must still come (the delivery, or the expiry
 	// notice at the sending socket): give that a generous time before anything is judged or recorded,
 	// so that a slow machine cannot turn a late but correct event into a verdict.
@@ -316,7 +317,7 @@ func sendCase(c *Ctx, im *Impl, cf *CaseFile, w *world, s *scenario, src, dst, f
 		got := true
 		if d <= h {
 			got = w.waitUntil(patience, func() bool { return len(w.dlvs) > 0 })
-		} else if fsvc == "src" && h <= int(s.maxHops) {
+		} else if viaSocket && h <= int(s.maxHops) {
 			got = w.waitUntil(patience, func() bool {
 				for _, x := range w.sockNtfs {
 					if x.Node == src {
@@ -342,18 +343,6 @@ func sendCase(c *Ctx, im *Impl, cf *CaseFile, w *world, s *scenario, src, dst, f
 	taps, dlvs, ntfs, sockNtfs, bad := w.taps, w.dlvs, w.ntfs, w.sockNtfs, w.rawBad
 	w.taps, w.dlvs, w.ntfs, w.sockNtfs, w.rawBad = nil, nil, nil, nil, nil
 	w.mu.Unlock()
-	for _, t := range taps {
-		stale := !t.P.Notice && !bytes.Equal(t.P.Data, payload)
-		if t.P.Notice && (t.P.About.FromService != fsvc || t.P.About.ToService != tsvc || t.P.About.FromNode != src) {
-			stale = true
-		}
-		if stale { // the observation window of an earlier probe was closed too early
-			im.Hist("discarded:packet-of-an-earlier-probe-still-travelling")
-			w.pending = nil
-			w.quiet(150 * time.Millisecond)
-			return true
-		}
-	}
 	label := fmt.Sprintf("send %s %s:%s -> %s:%s hops=%d", s.name, src, fsvc, dst, tsvc, h)
 	replay := map[string]interface{}{"scenario": s.name, "src": src, "fsvc": fsvc, "dst": dst, "tsvc": tsvc, "hops": h, "maxHops": s.maxHops}
 
@@ -434,7 +423,7 @@ func sendCase(c *Ctx, im *Impl, cf *CaseFile, w *world, s *scenario, src, dst, f
 		} else {
 			im.Hist("send:expired")
 		}
-		if !reach && fsvc == "src" {
+		if !reach && viaSocket {
 			// the notice comes back if the expiry node is within maxHops of the source
 			expectNotice := h <= int(s.maxHops)
 			got := 0
@@ -503,10 +492,10 @@ func pingRes(w *world, self string, from string, err error) (string, string) {
 const eph = "ephemerl"
 
 func pingCase(c *Ctx, im *Impl, cf *CaseFile, w *world, s *scenario, src, dst string, h, d int) {
-	w.checkPending(cf, im)
 	if w.injected != nil {
 		w.reinject()
 	}
+	w.begin(false, src, "", dst, "ping", false)
 	desc := w.desc(nil)
 	from, err := patientPing(context.Background(), w.mesh.Nodes[src], dst, byte(h), im)
 	w.settle()
@@ -576,10 +565,10 @@ func (p *recPing) Ping(ctx context.Context, target string, hopsToLive byte) (tim
 }
 
 func traceCase(c *Ctx, im *Impl, cf *CaseFile, w *world, s *scenario, src, dst string, d int) {
-	w.checkPending(cf, im)
 	if w.injected != nil {
 		w.reinject()
 	}
+	w.begin(false, src, "", dst, "ping", false)
 	desc := w.desc(nil)
 	rp := &recPing{w: w, n: w.mesh.Nodes[src], self: src}
 	var hops []string
@@ -608,7 +597,6 @@ func traceCase(c *Ctx, im *Impl, cf *CaseFile, w *world, s *scenario, src, dst s
 		}
 		cancel()
 		w.settle()
-		w.resnapshot() // this second run is activity of its own, not a late echo of the recorded one
 		if strings.Join(hops2, ",") != strings.Join(hops, ",") || (lastErr2 == nil) != (lastErr == nil) {
 			// its pings wait 10 s, the context 3 s: once more, with time, before it counts
 			hops2, lastErr2 = nil, nil
@@ -619,7 +607,6 @@ func traceCase(c *Ctx, im *Impl, cf *CaseFile, w *world, s *scenario, src, dst s
 			}
 			cancel()
 			w.settle()
-			w.resnapshot()
 			im.Hist("traceroute:method-repeated")
 		}
 		if strings.Join(hops2, ",") != strings.Join(hops, ",") || (lastErr2 == nil) != (lastErr == nil) {
